@@ -182,13 +182,14 @@ def loadIncludeConfig : Option Val → Out (List IncCfg)
 
 /-! ## `importResources` -/
 
-/-- the loop `for name, a := range from` of `importResource` -/
-def importEntries : KVs → KVs → Out KVs
+/-- the loop `for name, a := range from` of `importResource`; `same` is the test that lets an already defined
+name pass (`reflect.DeepEqual`, or — inside `ApplyInclude` — `sameResource`) -/
+def importEntries (same : Val → Val → Bool) : KVs → KVs → Out KVs
   | [], to => .ok to
   | (name, a) :: rest, to =>
     match lookup name to with
-    | some c => if veq a c then importEntries rest to else .err "conflict"
-    | none => importEntries rest (to ++ [(name, a)])
+    | some c => if same a c then importEntries same rest to else .err "conflict"
+    | none => importEntries same rest (to ++ [(name, a)])
 
 /-- the section of the including model the resources go to: absent or null = empty, a mapping, or neither -/
 def targetSection (key : String) (target : KVs) : Option KVs :=
@@ -198,7 +199,7 @@ def targetSection (key : String) (target : KVs) : Option KVs :=
   | some (.map to) => some to
   | some _ => none
 
-def importResource (source target : KVs) (key : String) : Out KVs :=
+def importResource (same : String → Val → Val → Bool) (source target : KVs) (key : String) : Out KVs :=
   match lookup key source with
   | none => .ok target
   | some .null => .ok target
@@ -207,16 +208,20 @@ def importResource (source target : KVs) (key : String) : Out KVs :=
     | none => .err "notMapping"
     | some to =>
       match frm with
-      | .map f => (importEntries f to).bind fun to' => .ok (insert key (.map to') target)
+      | .map f => (importEntries (same key) f to).bind fun to' => .ok (insert key (.map to') target)
       | _ => .err "notMapping"
 
 def resourceKinds : List String := ["services", "volumes", "networks", "secrets", "configs"]
 
-def importKinds (source : KVs) : List String → KVs → Out KVs
+def importKinds (same : String → Val → Val → Bool) (source : KVs) : List String → KVs → Out KVs
   | [], target => .ok target
-  | k :: ks, target => (importResource source target k).bind (importKinds source ks)
+  | k :: ks, target => (importResource same source target k).bind (importKinds same source ks)
 
-def importResources (source target : KVs) : Out KVs := importKinds source resourceKinds target
+def importResources (same : String → Val → Val → Bool) (source target : KVs) : Out KVs :=
+  importKinds same source resourceKinds target
+
+/-- `reflect.DeepEqual` in every section: the stand-alone `importResources(source, target)` -/
+def deepEqual : String → Val → Val → Bool := fun _ a c => veq a c
 
 /-! ## the world `ApplyInclude` runs in -/
 
@@ -231,6 +236,8 @@ structure World where
   envFromFile : Env → List String → Out Env
   /-- `loadYamlModel` of the included project: working dir, local-loader dir, files, environment, `included` -/
   loadModel : String → String → List String → Env → List String → Out KVs
+  /-- `paths.ResolveRelativePaths` of one resource `section.name` against a base directory (`none` = error / panic) -/
+  resolveRes : String → String → Val → Option Val := fun _ _ v => some v
 
 def osAbs (W : World) (p : String) : String := if isAbs p then clean p else join W.cwd p
 def statDir (W : World) (p : String) : Bool := W.isDir (osAbs W p)
@@ -299,12 +306,19 @@ loader, which is the including project's directory in absolute form -/
 def baseDir (wd L : String) : String :=
   if isAbs wd then wd else if L = "" then wd else L
 
+/-- `sameResource`: deeply equal, or deeply equal once the relative paths of both definitions are resolved against
+the including project's directory (the same file reached through two include routes spells them differently) -/
+def sameResource (W : World) (base : String) : String → Val → Val → Bool := fun key a c =>
+  veq a c || match W.resolveRes base key a, W.resolveRes base key c with
+    | some x, some y => veq x y
+    | _, _ => false
+
 /-- body of `for _, r := range includeConfig` -/
 def includeOne (W : World) (wd L : String) (env : Env) (chain : List String) (model : KVs) (r : IncCfg) : Out KVs :=
   (plan W (baseDir wd L) L chain r).bind fun pl =>
   (includeEnv W (baseDir wd L) pl.projDir env r.envFile).bind fun env' =>
   (W.loadModel pl.relwd pl.projDir pl.paths env' chain).bind fun imported =>
-  importResources imported model
+  importResources (sameResource W (baseDir wd L)) imported model
 
 def includeAll (W : World) (wd L : String) (env : Env) (chain : List String) : List IncCfg → KVs → Out KVs
   | [], model => .ok model
